@@ -128,7 +128,7 @@ PROPERTIES = {
         not_decided=['body == dec(payload) as one end-to-end equation (needs zlib semantics: C19 / bounded stand-in)'],
     ),
     'C09': dict(
-        modules=['redirect', 'websession', 'itemsession', 'webproc', 'httpstream', 'httpclient', 'ftp', 'escape'], level='proof', bounded=['c09_hostile.py'],
+        modules=['filters', 'rule', 'redirect', 'websession', 'itemsession', 'webproc', 'robots', 'httpstream', 'httpclient', 'ftp', 'escape'], level='proof', bounded=['c09_hostile.py'],
         claim='Exception-escape contracts (raises is the complete set of classes that may leave the function; every other class reaching the boundary is the failed '
               'obligation escape[Class]@site, decided through the real class hierarchy of wpull/errors.py) on the HTTP stack -- Stream.read_response, read_body and the '
               'three body readers, ChunkedTransferReader.read_chunk_header/body/trailer, _decompress_data/_flush_decompressor, Response.parse, parse_status_line, '
@@ -160,20 +160,19 @@ PROPERTIES = {
                      'the streaming/one-shot equality but is reported for review', 'multi-member gzip streams: only the first member is decoded (zlib behaviour), not examined'],
     ),
     'C20': dict(
-        modules=['filters', 'rule', 'robots'], level='proof', bounded=['c20_nofollow.py'],
+        modules=['filters', 'rule', 'redirect', 'websession', 'itemsession', 'webproc', 'robots'], level='proof', bounded=['c20_nofollow.py'],
         claim='RobotsTxtPool as a map from origin key (scheme, host, port) to the loaded rules: has_parser / can_fetch / load_robots_txt read and write exactly the entry of '
               'the URL\'s origin; can_fetch is the third-party matcher\'s verdict for the user-agent string as given and the URL. RobotsTxtChecker: can_fetch_pool raises '
               'NotInPoolError exactly on a miss; fetch_robots_txt follows the fetch session to its last response and then stores the WHOLE file for status 200, blank rules '
               '(allow all) for other statuses and for a protocol error, and for 5xx raises ServerError with NOTHING stored (the URL is postponed and robots.txt is asked '
               'again); can_fetch fetches only on a miss, never replaces an entry once obtained, leaves other origins untouched. FetchRule.check_initial_web_request: a '
-              'positive verdict implies the robots verdict (C02 run proves the filter part). ElementWalker.robots_cannot_follow is the HTML-standard test. Three genuine '
+              'positive verdict implies the robots verdict (C02 run proves the filter part). WebProcessorSession._process_robots gives the go-ahead only with a positive robots verdict and turns a robots.txt fetch failure into a handled per-URL error; WebProcessorSession.process creates the web session (the only thing that sends requests) only after that go-ahead. ElementWalker.robots_cannot_follow is the HTML-standard test. Three genuine '
               'defects were repaired (fix: commits); one is recorded as a known finding (redirect targets are not checked against robots.txt).',
         note='assumed: the bundled robotexclusionrulesparser is a deterministic function (text, agent, URL) -> bool and parses any empty text; the WebSession that fetches '
              '/robots.txt (its own contracts: C18/C16/C09); Body.read from offset 0; the robots URL re-parses (C10). Bounded stand-in c20_nofollow.py (labelled bounded): the real '
              'HTMLScraper.scrape / _process_elements with a stub tokenizer (lxml and html5lib are not importable here).',
         not_decided=['"for all crawl orders and concurrency levels": the pool is only reached through the contracts above; interleavings of two item sessions fetching the same '
-                     'robots.txt concurrently may fetch it twice (no lock): not examined', 'WebProcessorSession.process / _process_robots ordering (robots before the first request): '
-                     'read from the code, not under contract'],
+                     'robots.txt concurrently may fetch it twice (no lock): not examined', 'redirect targets: see the known finding'],
     ),
     'C12': dict(
         modules=['pool'], level='proof', bounded=['c12_pool.py'],
